@@ -4,7 +4,213 @@ the runner loop as a sum of contributions.
 -/
 import SfsModel.Model.Create
 import SfsModel.Spec.Create
+import SfsModel.Lemmas.Index
+import SfsModel.Lemmas.SumBox
+import SfsModel.Lemmas.Hyper
 import Mathlib.Algebra.Field.Basic
 import Mathlib.Algebra.CharZero.Defs
+import Mathlib.Algebra.BigOperators.Group.List.Basic
+import Mathlib.Algebra.BigOperators.Group.Finset.Basic
 namespace Sfs
+open Sfs.Spec
+
+/-! ### the selected pairs -/
+
+theorem selected_nil_left (map : List (String × Nat)) (gts : List GtRes) : selected map [] gts = [] := by
+  simp [selected]
+
+theorem selected_nil_right (map : List (String × Nat)) (cols : List String) : selected map cols [] = [] := by
+  simp [selected]
+
+theorem selected_cons_none (map : List (String × Nat)) (c : String) (cs : List String) (g : GtRes) (gs : List GtRes)
+    (h : lookupPop map c = none) : selected map (c :: cs) (g :: gs) = selected map cs gs := by
+  simp [selected, h]
+
+theorem selected_cons_some (map : List (String × Nat)) (c : String) (cs : List String) (g : GtRes) (gs : List GtRes)
+    (pid : Nat) (h : lookupPop map c = some pid) :
+    selected map (c :: cs) (g :: gs) = (pid, g) :: selected map cs gs := by
+  simp [selected, h]
+
+/-! ### `bump` -/
+
+theorem bump_length (l : List Nat) (i k : Nat) : (bump l i k).length = l.length := by
+  simp [bump]
+
+theorem bump_getD (l : List Nat) (i k j : Nat) (hj : j < l.length) :
+    (bump l i k).getD j 0 = l.getD j 0 + if i = j then k else 0 := by
+  unfold bump
+  rw [List.getD_eq_getElem?_getD, List.getD_eq_getElem?_getD, List.getElem?_set]
+  by_cases e : i = j
+  · subst e; simp [hj]
+  · simp [e]
+
+/-- Sum over the selected pairs of population `j` of a per-genotype weight. -/
+def popSum (f : GtRes → Nat) (sel : List (Nat × GtRes)) (j : Nat) : Nat :=
+  ((sel.filter (fun p => p.1 = j)).map (fun p => f p.2)).sum
+
+theorem popSum_nil (f : GtRes → Nat) (j : Nat) : popSum f [] j = 0 := rfl
+
+theorem popSum_cons (f : GtRes → Nat) (p : Nat × GtRes) (sel : List (Nat × GtRes)) (j : Nat) :
+    popSum f (p :: sel) j = (if p.1 = j then f p.2 else 0) + popSum f sel j := by
+  unfold popSum
+  by_cases e : p.1 = j <;> simp [e]
+
+theorem altCounts_eq (npop : Nat) (sel : List (Nat × GtRes)) :
+    altCounts npop sel = (List.range npop).map (popSum altOf sel) := rfl
+
+theorem calledTotals_eq (npop : Nat) (sel : List (Nat × GtRes)) :
+    calledTotals npop sel = (List.range npop).map (popSum calledOf sel) := rfl
+
+/-! ### the column loop -/
+
+/-- What `tally` computes from an arbitrary starting state, in terms of the selected pairs. -/
+theorem tally_spec (map : List (String × Nat)) (cols : List String) (gts : List GtRes) (st : SiteSt) :
+    (tally map cols gts st = none ↔ hasPloidyError (selected map cols gts) = true) ∧
+    ∀ st1, tally map cols gts st = some st1 →
+      st1.counts.length = st.counts.length ∧ st1.totals.length = st.totals.length ∧
+      (∀ j, j < st.counts.length →
+        st1.counts.getD j 0 = st.counts.getD j 0 + popSum altOf (selected map cols gts) j) ∧
+      (∀ j, j < st.totals.length →
+        st1.totals.getD j 0 = st.totals.getD j 0 + popSum calledOf (selected map cols gts) j) ∧
+      st1.skipped.isEmpty = (st.skipped.isEmpty && complete (selected map cols gts)) := by
+  fun_induction tally map cols gts st with
+  | case1 c cs g gs st hl ih =>
+    rw [selected_cons_none _ _ _ _ _ hl]; exact ih
+  | case2 c cs gs st pid hl k ih =>
+    rw [selected_cons_some _ _ _ _ _ pid hl]
+    obtain ⟨ih1, ih2⟩ := ih
+    refine ⟨?_, ?_⟩
+    · rw [ih1]; simp [hasPloidyError]
+    · intro st1 h
+      obtain ⟨a, b, c', d, e⟩ := ih2 st1 h
+      simp only [bump_length] at a b c' d
+      refine ⟨a, b, ?_, ?_, ?_⟩
+      · intro j hj
+        rw [c' j hj, bump_getD _ _ _ _ hj, popSum_cons]
+        simp only [altOf]; omega
+      · intro j hj
+        rw [d j hj, bump_getD _ _ _ _ hj, popSum_cons]
+        simp only [calledOf]; omega
+      · rw [e]; simp [complete]
+  | case3 c cs gs st pid hl s ih =>
+    rw [selected_cons_some _ _ _ _ _ pid hl]
+    obtain ⟨ih1, ih2⟩ := ih
+    refine ⟨?_, ?_⟩
+    · rw [ih1]; simp [hasPloidyError]
+    · intro st1 h
+      obtain ⟨a, b, c', d, e⟩ := ih2 st1 h
+      refine ⟨a, b, ?_, ?_, ?_⟩
+      · intro j hj
+        rw [c' j hj, popSum_cons]
+        simp [altOf]
+      · intro j hj
+        rw [d j hj, popSum_cons]
+        simp [calledOf]
+      · rw [e]; simp [complete]
+  | case4 c cs gs st pid hl =>
+    rw [selected_cons_some _ _ _ _ _ pid hl]
+    simp [hasPloidyError]
+  | case5 cols gts st hne =>
+    have hs : selected map cols gts = [] := by
+      cases cols with
+      | nil => exact selected_nil_left _ _
+      | cons c cs =>
+        cases gts with
+        | nil => exact selected_nil_right _ _
+        | cons g gs => exact absurd rfl (hne c cs g gs rfl)
+    rw [hs]
+    simp [hasPloidyError, complete, popSum_nil]
+
+/-! ### `read_site` -/
+
+theorem list_ext_getD {β} (d : β) (a b : List β) (h : a.length = b.length)
+    (h' : ∀ j, j < a.length → a.getD j d = b.getD j d) : a = b := by
+  apply List.ext_getElem h
+  intro j h1 h2
+  have := h' j h1
+  rw [List.getD_eq_getElem?_getD, List.getD_eq_getElem?_getD, List.getElem?_eq_getElem h1,
+    List.getElem?_eq_getElem h2] at this
+  simpa using this
+
+theorem zipWith_eq_all : ∀ (a b : List Nat), a.length = b.length →
+    (List.zipWith (fun t m => decide (t = m)) a b).all id = decide (a = b)
+  | [], [], _ => by simp
+  | x :: a, y :: b, h => by
+    have ih := zipWith_eq_all a b (by simpa using h)
+    simp only [List.zipWith_cons_cons, List.all_cons, ih, id]
+    by_cases e : x = y <;> simp [e]
+  | [], _ :: _, h => by simp at h
+  | _ :: _, [], h => by simp at h
+
+/-- The state `read_site` leaves behind and the tallies it classifies, from arbitrary buffers of the right length. -/
+theorem readSite_tally (cfg : SiteCfg) (st : SiteSt)
+    (h1 : st.counts.length = numPops cfg.map) (h2 : st.totals.length = numPops cfg.map) (gts : List GtRes) :
+    (hasPloidyError (selected cfg.map cfg.cols gts) = true →
+      tally cfg.map cfg.cols gts ⟨st.counts.map (fun _ => 0), st.totals.map (fun _ => 0), []⟩ = none) ∧
+    (hasPloidyError (selected cfg.map cfg.cols gts) = false →
+      ∃ st1, tally cfg.map cfg.cols gts ⟨st.counts.map (fun _ => 0), st.totals.map (fun _ => 0), []⟩ = some st1 ∧
+        st1.counts = altCounts (numPops cfg.map) (selected cfg.map cfg.cols gts) ∧
+        st1.totals = calledTotals (numPops cfg.map) (selected cfg.map cfg.cols gts) ∧
+        st1.skipped.isEmpty = complete (selected cfg.map cfg.cols gts)) := by
+  obtain ⟨hn, hs⟩ := tally_spec cfg.map cfg.cols gts ⟨st.counts.map (fun _ => 0), st.totals.map (fun _ => 0), []⟩
+  refine ⟨hn.mpr, ?_⟩
+  intro hp
+  cases ht : tally cfg.map cfg.cols gts ⟨st.counts.map (fun _ => 0), st.totals.map (fun _ => 0), []⟩ with
+  | none => rw [hn.mp ht] at hp; cases hp
+  | some st1 =>
+    obtain ⟨a, b, c, d, e⟩ := hs st1 ht
+    simp only [List.length_map] at a b c d
+    refine ⟨st1, rfl, ?_, ?_, ?_⟩
+    · apply list_ext_getD 0
+      · simp [altCounts_eq, a, h1]
+      · intro j hj
+        rw [a] at hj
+        rw [c j hj, altCounts_eq]
+        have hj' : j < numPops cfg.map := by omega
+        simp [List.getD_eq_getElem?_getD, hj, hj']
+    · apply list_ext_getD 0
+      · simp [calledTotals_eq, b, h2]
+      · intro j hj
+        rw [b] at hj
+        rw [d j hj, calledTotals_eq]
+        have hj' : j < numPops cfg.map := by omega
+        simp [List.getD_eq_getElem?_getD, hj, hj']
+    · simpa using e
+
+/-- The buffers keep their length. -/
+theorem readSite_lengths (cfg : SiteCfg) (st : SiteSt) (gts : List GtRes) :
+    (readSite cfg st gts).2.counts.length = st.counts.length ∧
+    (readSite cfg st gts).2.totals.length = st.totals.length := by
+  cases ht : tally cfg.map cfg.cols gts ⟨st.counts.map (fun _ => 0), st.totals.map (fun _ => 0), []⟩ with
+  | none => simp only [readSite, ht, List.length_map, and_self]
+  | some st1 =>
+    obtain ⟨a, b, _⟩ := (tally_spec cfg.map cfg.cols gts _).2 st1 ht
+    simp only [readSite, ht]
+    simpa using ⟨a, b⟩
+
+/-- `read_site` returns the pure function `siteSpec` of the current record, whatever the buffers held.
+    Only the last clause of `CfgOk` is needed. -/
+theorem readSite_eq_spec (cfg : SiteCfg)
+    (hpt : ∀ pt, cfg.projectTo = some pt → pt.length = numPops cfg.map) (st : SiteSt)
+    (h1 : st.counts.length = numPops cfg.map) (h2 : st.totals.length = numPops cfg.map) (gts : List GtRes) :
+    (readSite cfg st gts).1 = siteSpec cfg gts := by
+  obtain ⟨hA, hB⟩ := readSite_tally cfg st h1 h2 gts
+  cases hp : hasPloidyError (selected cfg.map cfg.cols gts) with
+  | true => simp only [readSite, siteSpec, hA hp, hp, if_true]
+  | false =>
+    obtain ⟨st1, ht, hc, htot, hsk⟩ := hB hp
+    simp only [readSite, siteSpec, ht, hc, htot, hsk, hp]
+    cases hq : cfg.projectTo with
+    | none => simp
+    | some pt =>
+      have hl : (calledTotals (numPops cfg.map) (selected cfg.map cfg.cols gts)).length = pt.length := by
+        rw [hpt pt hq]; simp [calledTotals_eq]
+      simp only [zipWith_eq_all _ _ hl]
+      simp [ge_iff_le]
+
+theorem readSite_eq_spec_of_cfgOk (cfg : SiteCfg) (hc : CfgOk cfg) (st : SiteSt)
+    (h1 : st.counts.length = numPops cfg.map) (h2 : st.totals.length = numPops cfg.map) (gts : List GtRes) :
+    (readSite cfg st gts).1 = siteSpec cfg gts :=
+  readSite_eq_spec cfg hc.2.2.2.2 st h1 h2 gts
+
 end Sfs
